@@ -278,6 +278,54 @@ def r1c_loaders_build_fresh_types(ctx, sym):
     ctx.floor('R1', 'builtin module loaders', n, 12)
 
 
+def r1d_type_instances_own_their_fields(ctx, sym):
+    """Type.add_attr writes into self.fields; Type.__init__ gives every instance its own copy of the class-level
+    `fields` table. Sibling rule over every class deriving Type in pedal/types: its effective constructor, executed
+    abstractly, leaves the instance with a `fields` of its own - otherwise `s.size = 3` in one submission edits the
+    class's table for every later analysis in the process."""
+    from .. import symexec
+    from ..fdeval import Obj, Raised, Inconclusive
+    tmod = ctx.repo.module('pedal.types.new_types')
+    base = sym.find_class('pedal.types.new_types', 'Type')
+    n = 0
+    for ci in sym.subclasses(base, strict=True):
+        if not ci.module.name.startswith('pedal.types'):
+            continue
+        init = None
+        for k in sym.mro(ci):
+            if hasattr(k, 'methods') and '__init__' in k.methods:
+                init = (k, k.methods['__init__'])
+                break
+        if init is None or init[0] is base:
+            continue
+        n += 1
+        ctx.analysed_function(init[0].module, init[1])
+        o = Obj(ci.name)
+        o.attrs['__classdef__'] = ci.node
+        o.attrs['__open__'] = True
+        a = init[1].args
+        required = [x.arg for x in a.args][1:len(a.args) - len(a.defaults)]
+        args = [Obj('arg:' + p, __open__=True) for p in required]
+        fd = symexec.new_fd(sym, init[0].module, calls={'isinstance': lambda *x: False})
+        try:
+            fd.call_function(init[1], args, bound_self=o)
+        except (Raised, Inconclusive):
+            # the constructor needs concrete arguments: decide on the chain of super().__init__() calls instead
+            src = ast.unparse(init[1])
+            ctx.check('super().__init__(' in src or 'Type.__init__(' in src, 'R1', 'type:%s:own-fields' % ci.name,
+                      init[0].module, init[1],
+                      "%s.__init__ (used by %s) never reaches Type.__init__, which copies the class-level fields table "
+                      "(syntactic fallback)" % (init[0].name, ci.name),
+                      "attribute assignment on a value of this type edits the class's table for the whole process")
+            continue
+        ctx.check('fields' in o.attrs, 'R1', 'type:%s:own-fields' % ci.name, init[0].module, init[1],
+                  "constructing %s through %s.__init__ never reaches Type.__init__: the instance shares the class-level "
+                  "`fields` table that add_attr writes into" % (ci.name, init[0].name),
+                  "s = 'abc'; print(s.size + 1); s.size = 3  analysed twice in one process: the first analysis reports "
+                  "incompatible_types, the second does not")
+    ctx.floor('R1', 'Type subclasses with their own constructor', n, 10)
+
+
 def r1b_reset_rebuilds(ctx, sym):
     """reset_builtin_modules, executed abstractly on a pre-filled table, must leave no entry of the previous analysis."""
     from ..fdeval import FD, Raised, Inconclusive
@@ -575,6 +623,7 @@ def run(ctx):
     r1_inventory(ctx, sym)
     r1b_reset_rebuilds(ctx, sym)
     r1c_loaders_build_fresh_types(ctx, sym)
+    r1d_type_instances_own_their_fields(ctx, sym)
     r2_clear_complete(ctx, sym)
     r3_lazy_tool_reset(ctx, sym)
     r4_entry_points(ctx, sym)
